@@ -40,7 +40,7 @@ DEV = {
 }
 
 OPS = ["D_g", "D_g2", "D_gname", "D_l", "D_mw", "DMAP", "SLM", "ADD_g", "ADD_l", "ADD_mw", "TGT_l", "DLY_g",
-       "EOM_on", "EOM_p", "EOM_off", "MEAS", "MEAS_xy", "VAR", "INSPECT", "ALIGN", "SHIFT", "ADD_g2", "DMAP2", "D_l2"]
+       "EOM_on", "EOM_p", "EOM_off", "MEAS", "MEAS_xy", "VAR", "INSPECT", "ALIGN", "SHIFT", "ADD_g2", "DMAP2", "D_l2", "VAR_EOM"]
 
 
 class Model:
@@ -165,6 +165,10 @@ class Model:
             if "g" not in self.names or self.measured:
                 return False
             return True
+        if op == "VAR_EOM":  # first use of a variable inside an EOM pulse
+            if "g" not in self.names or self.measured:
+                return False
+            return bool(self.names["g"]["eom"])
         if op == "INSPECT":
             return not self.param
         if op == "ALIGN":
@@ -229,7 +233,7 @@ class Model:
             self.names["g"]["eom"] = False
         elif op in ("MEAS", "MEAS_xy"):
             self.measured = True
-        elif op == "VAR":
+        elif op in ("VAR", "VAR_EOM"):
             self.param = True
 
 
@@ -281,6 +285,10 @@ def do_op(seq, op, dev, st):
         if "v" not in st:
             st["v"] = seq.declare_variable("v", dtype=int)
         seq.delay(st["v"], "g")
+    elif op == "VAR_EOM":
+        if "v" not in st:
+            st["v"] = seq.declare_variable("v", dtype=int)
+        seq.add_eom_pulse("g", st["v"], 0.0)
     elif op == "INSPECT":
         seq.get_duration()
     elif op == "ALIGN":
@@ -321,11 +329,11 @@ def h_history(shape):
                 ok = False
             if pred is not None:
                 obs.append(("typestate:%s" % op, ok == pred))
-                inp.publish("measured_then_variable@typestate:%s" % op, bool(m.measured and op == "VAR" and not m.param))
+                inp.publish("measured_then_variable@typestate:%s" % op, bool(m.measured and op in ("VAR", "VAR_EOM") and not m.param))
                 globs = [v for v in m.names.values() if v["kind"] == "glob"]
                 inp.publish("slm_with_an_empty_and_a_used_global_channel@typestate:%s" % op, bool(
                     op == "SLM" and m.in_ising and any(v.get("pulse") for v in globs) and any(not v.get("pulse") for v in globs)))
-            if m.measured and op == "VAR" and ok:
+            if m.measured and op in ("VAR", "VAR_EOM") and ok:
                 return obs  # finding F11: the model stops tracking here
             if ok:
                 m.apply(op)
